@@ -30,6 +30,8 @@ pub enum Block {
     Quote(Vec<Block>),
     Table { header: Vec<Vec<Inline>>, rows: Vec<Vec<Vec<Inline>>> },
     Rule,
+    /// raw lines (unclosed fences, display math, trailing blank lines ...): rendered verbatim
+    Raw(String),
 }
 
 #[derive(Clone, Debug, PartialEq, Default)]
@@ -161,6 +163,11 @@ impl<'a> Render<'a> {
                 }
             }
             Block::Rule => out.push("***".into()),
+            Block::Raw(t) => {
+                for l in t.split('\n') {
+                    out.push(l.to_string());
+                }
+            }
         }
     }
 
@@ -461,6 +468,9 @@ pub const MUTATIONS: &[&str] = &[
     "change_heading_level",
     "append_block",
     "swap_blocks",
+    "toggle_trailing_newline",
+    "trailing_blank_lines",
+    "end_with_special_block",
 ];
 
 /// Apply mutation `m` (index into MUTATIONS) to `doc`. Returns the name applied.
@@ -625,6 +635,33 @@ pub fn mutate(g: &mut Gen, doc: &mut Doc, m: usize, version: &str) -> &'static s
         "append_block" => {
             let b = g.block();
             doc.blocks.push(b);
+        }
+        "toggle_trailing_newline" => {
+            doc.trailing_newline = !doc.trailing_newline;
+        }
+        "trailing_blank_lines" => {
+            // only the white space at the very end of the file changes
+            match doc.blocks.last() {
+                Some(Block::Raw(t)) if t.trim().is_empty() => {
+                    doc.blocks.pop();
+                }
+                _ => doc.blocks.push(Block::Raw(if g.rng.chance(1, 2) { "".into() } else { "\n".into() })),
+            }
+        }
+        "end_with_special_block" => {
+            // blocks whose extent depends on how the file ends
+            while matches!(doc.blocks.last(), Some(Block::Raw(t)) if t.trim().is_empty()) {
+                doc.blocks.pop();
+            }
+            let b = match g.rng.below(5) {
+                0 => Block::Heading { level: 2, inl: g.words(1, 3), setext: true },
+                1 => g.table(),
+                2 => Block::Raw(format!("```\n{} {}", g.word(), g.word())),
+                3 => Block::Raw(format!("> {}\n>", g.word())),
+                _ => Block::Raw(format!("$$\n{} = 1", g.word())),
+            };
+            doc.blocks.push(b);
+            doc.trailing_newline = g.rng.chance(1, 2);
         }
         "swap_blocks" => {
             if doc.blocks.len() >= 2 {
